@@ -671,6 +671,7 @@ namespace c15
       MeshInfo info;
       auto spec = gen_mesh<Shape_>(c, opt, info);
       const int fperm = feat_permute_choose(c);
+      D_::extra_tags(c, spec);                                      // element-specific structural tags (known-findings matching)
       const std::string op = std::string("space.") + D_::name();
       c.set_op(op);
       c.desc = vh::J().raw("mesh", spec.describe()).kv("space", D_::name()).raw("tags", c.tags_json()).str();
@@ -740,5 +741,6 @@ namespace c15
     static constexpr int qdeg = 0;
     static constexpr bool h1 = false, affine_only = false, force_grad = false, cond_scaled = false;
     static constexpr double poly_tol = 1e-10, dual_tol = 1e-9, trace_tol = 1e-10;
+    template<typename Spec_> static void extra_tags(vh::Ctx&, const Spec_&) {}
   };
 } // namespace c15
